@@ -50,7 +50,10 @@ Singles == {[iface |-> "org.example.px", words |-> <<"get", "info">>, rename |->
 Named == {[iface |-> "org.example.px", words |-> <<"do", "it">>, rename |-> "", kind |-> k, lt |-> "elided",
            params |-> MkN(<<[cls |-> c, ren |-> FALSE, none |-> FALSE, sp |-> ""]>>, <<n>>), out |-> "unit"]
           : n \in PNamePool, k \in Kinds, c \in {"str", "scalar"}}
-Picked == Singles \cup Named \cup {RandomDecl(i) : i \in 1..NDecl}
+\* no arguments at all: every kind of method, both outputs
+NoArgs == {[iface |-> "org.example.px", words |-> <<"list", "all">>, rename |-> rn, kind |-> k, lt |-> "elided",
+            params |-> <<>>, out |-> IF k = "oneway" THEN "unit" ELSE o] : k \in Kinds, o \in {"unit", "struct"}, rn \in {"", "Renamed"}}
+Picked == Singles \cup Named \cup NoArgs \cup {RandomDecl(i) : i \in 1..NDecl}
 
 \* Varlink member names: [A-Z][A-Za-z0-9]*
 DigitS == "0123456789"
